@@ -140,7 +140,7 @@ theorem parseYamlDie_ok (pf : List Char → Option α) (ry : String → Option (
 def PreOK (sqrt : α → α) (tiny : α) (stogOf : α → α → List (NL.NRect α) → List (NL.NRect α))
     (st : Option (α × α)) (ndoc : Option (YVal α)) (st1 : Option (α × α)) (fixed : List (Rect α)) : Prop :=
   (ndoc = none ∧ st1 = st ∧ fixed = []) ∨
-  ∃ nd l, ndoc = some nd ∧ loadNetlist sqrt tiny stogOf st nd = .ok l ∧ st1 = some l.st ∧ fixed = l.fixed
+  ∃ nd l, ndoc = some nd ∧ loadNetlist sqrt tiny stogOf st nd = .ok l ∧ st1 = l.st ∧ fixed = l.fixed
 
 theorem construct_ok (pf : List Char → Option α) (ry : String → Option (YV α)) (sqrt : α → α) (tiny : α)
     (stogOf : α → α → List (NL.NRect α) → List (NL.NRect α)) (st : Option (α × α)) (ndoc : Option (YVal α))
@@ -188,27 +188,25 @@ theorem construct_eq (pf : List Char → Option α) (ry : String → Option (YV 
   · simp only [hp]
     cases dieOfIn sqrt st1 inp [] picks <;> rfl
   · simp only [hl, hp]
-    cases dieOfIn sqrt (some l.st) inp l.fixed picks <;> rfl
+    cases dieOfIn sqrt l.st inp l.fixed picks <;> rfl
 
 /-! ### the netlist's fixed rectangles -/
 
 theorem loadNetlist_ok (sqrt : α → α) (tiny : α) (stogOf : α → α → List (NL.NRect α) → List (NL.NRect α))
     (st : Option (α × α)) (nd : YVal α) (l : Loaded α) (h : loadNetlist sqrt tiny stogOf st nd = .ok l) :
-    ∃ ms es, NL.parseDoc nd = .ok (ms, es) ∧ epsAfterNetlist sqrt tiny st ms = some l.st ∧
-      NL.finish (stogOf l.st.1 l.st.2) l.st.2 ms es = .ok l.netlist ∧ l.fixed = fixedRects ms := by
+    ∃ ms es, NL.parseDoc nd = .ok (ms, es) ∧ epsAfterNetlist sqrt tiny st ms = l.st ∧
+      NL.finish (stogOf (tolOf l.st).1 (tolOf l.st).2) (tolOf l.st).2 ms es = .ok l.netlist ∧ l.fixed = fixedRects ms := by
   unfold loadNetlist at h
   split at h
   · cases h
   · rename_i ms es hd
+    simp only at h
     split at h
     · cases h
-    · rename_i d a he
-      split at h
-      · cases h
-      · rename_i nl hf
-        simp only [Except.ok.injEq] at h
-        subst h
-        exact ⟨ms, es, hd, he, hf, rfl⟩
+    · rename_i nl hf
+      simp only [Except.ok.injEq] at h
+      subst h
+      exact ⟨ms, es, hd, rfl, hf, rfl⟩
 
 /-- a tolerance defined before the netlist is loaded stays; otherwise the netlist's own proposal is installed. -/
 theorem epsAfterNetlist_some (sqrt : α → α) (tiny : α) (p : α × α) (ms : List (NL.Mod α)) :
